@@ -127,7 +127,7 @@ def main():
             timeout_ms = int(a.pop(0))
         elif x == "--props":
             propf = a.pop(0).split(",")
-    claimed = {c["property_id"] for c in json.load(open(f"{VERIF}/MANIFEST.json"))["checks"]}
+    claimed = {c["property_id"] for c in json.load(open(f"{VERIF}/MANIFEST.json"))["checks"]} | {"ALL"}
     if propf:
         claimed = set(propf)
     cases = [c for c in load_cases() if not only or re.search(only, c["name"])]
